@@ -106,4 +106,6 @@ FIXED_BY_SUBJECT = {
    ('C08', 'MemoryError leaked for huge lengths on file substrates')],
  "fix: a length of exactly sys.maxsize octets was refused on files but reported short in memory": [
    ('C11', 'a definite length of sys.maxsize (or one octet more, after the BIT STRING pad octet) gave PyAsn1Error from file/gzip/raw substrates but underrun from bytes/BytesIO: input 03 88 80 00 00 00 00 00 00 00 + filler')],
+ "fix: base 8 and base 16 REAL encoding lost mantissa digits for negative exponents": [
+   ('C01', 'a REAL type asking for base 8/16 (binEncBase) with a negative exponent not divisible by 3 (4) and a mantissa beyond 2**53 decoded to a different number: e.g. binEncBase=8, (-835794846692677909421, 2, -2)')],
 }
